@@ -40,28 +40,20 @@ theorem mpc_sv8_info_decodes (h : Spec.Musepack.Sv8) (ok : h.OK) (rest : Bytes)
     parse (h.build ++ rest) = .ok (h.expected (h.build ++ rest).length) :=
   parse_sv8 h ok rest hrest hsz
 
-/-- C04 side, what really holds on EVERY byte string (file object `io.BytesIO`): `MusepackInfo` succeeds, raises a
-`MutagenError` (`MusepackHeaderError`), or raises `OverflowError`, the latter only if some packet-size field of
-the file, read at position `pos`, has `pos + size ≥ 2^63`; the packet loop terminates. -/
-theorem mpc_info_total_partial (f : Bytes) :
-    ∀ e, parse f = .error e → e = .mutagen ∨ (e = .overflow ∧ ¬ NoHugePacket f) := parse_total_aux f
+/-- C04 side: on EVERY byte string `MusepackInfo` either succeeds or raises a `MutagenError`
+(`MusepackHeaderError`) — SV4-6, SV7 and SV8 paths, ID3 skipping, every packet size (the seek over a packet
+whose size is no possible file offset is refused since /repo a1d2e75); the packet loop terminates. -/
+theorem mpc_info_total (f : Bytes) : ∀ e, parse f = .error e → e = .mutagen := parse_total_aux f
 
-/-- C04 side under the weakest excluding hypothesis: no packet-size field points beyond a file offset. -/
-theorem mpc_info_total (f : Bytes) (h : NoHugePacket f) : ∀ e, parse f = .error e → e = .mutagen := by
-  intro e he
-  rcases parse_total_aux f e he with h1 | ⟨_, h2⟩
-  · exact h1
-  · exact absurd h h2
+/-! ### witnesses -/
 
-/-! ### defect witnesses -/
-
-/-- NEW DEFECT witness (escape): "MPCK", a packet "EI" whose size field is 2^63-1, then anything.  The relative
-seek over the packet raises `OverflowError: new position too large` on a BytesIO (on a real file the `OSError`
-is converted to `MusepackHeaderError`).
-Repro: `Musepack(io.BytesIO(bytes.fromhex("4d50434b4549ffffffffffffffff7f534503")))`. -/
+/-- "MPCK", a packet "EI" whose size field is 2^63-1, then anything: the relative seek over the packet cannot be
+done (`OverflowError: new position too large` on a BytesIO); found by this model as an escape, repaired in /repo
+a1d2e75: it is `MusepackHeaderError` now.
+`Musepack(io.BytesIO(bytes.fromhex("4d50434b4549ffffffffffffffff7f534503")))`. -/
 theorem mpc_sv8_huge_packet_overflow :
     parse [0x4d, 0x50, 0x43, 0x4b, 0x45, 0x49, 0xff, 0xff, 0xff, 0xff, 0xff, 0xff, 0xff, 0xff, 0x7f, 0x53, 0x45, 0x03] =
-      .error .overflow := by decide +kernel
+      .error .mutagen := by decide +kernel
 
 /-- an SV7 stream of 100 frames whose last frame holds 1 sample (true gapless), 44100 Hz -/
 def sv7Gapless : Sv7 :=
